@@ -291,6 +291,48 @@ public class CrrlOverrides implements ITLCOverrides {
         return nat(x);
     }
 
+    // inverse of a modulo m in GF(2)[z] (0 when a = 0 mod m or not invertible)
+    @TLAPlusOperator(identifier = "PolyInvMod", module = "BigNat", warn = false)
+    public static Value polyinvmod(final Value a, final Value m) {
+        final BigInteger mm = big(m);
+        BigInteger r0 = mm, r1 = pmod(big(a), mm);
+        BigInteger t0 = BigInteger.ZERO, t1 = BigInteger.ONE;
+        while (r1.signum() != 0) {
+            // q, rem = divmod(r0, r1)
+            BigInteger q = BigInteger.ZERO, x = r0;
+            final int d1 = r1.bitLength();
+            while (x.bitLength() >= d1) {
+                final int s = x.bitLength() - d1;
+                x = x.xor(r1.shiftLeft(s));
+                q = q.setBit(s);
+            }
+            // t2 = t0 xor clmul(q, t1)
+            BigInteger prod = BigInteger.ZERO;
+            for (int i = 0; i < q.bitLength(); i++) {
+                if (q.testBit(i)) {
+                    prod = prod.xor(t1.shiftLeft(i));
+                }
+            }
+            final BigInteger t2 = t0.xor(prod);
+            r0 = r1; r1 = x; t0 = t1; t1 = t2;
+        }
+        if (!r0.equals(BigInteger.ONE)) {
+            return nat(BigInteger.ZERO);
+        }
+        return nat(pmod(t0, mm));
+    }
+
+    private static BigInteger pmod(BigInteger x, final BigInteger mm) {
+        final int dm = mm.bitLength();
+        if (dm == 0) {
+            return x;
+        }
+        while (x.bitLength() >= dm) {
+            x = x.xor(mm.shiftLeft(x.bitLength() - dm));
+        }
+        return x;
+    }
+
     // quotient of the GF(2)[z] division of a by m (0 if m = 0)
     @TLAPlusOperator(identifier = "PolyDiv", module = "BigNat", warn = false)
     public static Value polydiv(final Value a, final Value m) {
